@@ -173,6 +173,12 @@ def struct_fields(fmt: str):
         if ch.isdigit():
             n += ch
             continue
+        if ch == "s":
+            w = int(n) if n else 1
+            out.append((off, w, "s"))
+            off += w
+            n = ""
+            continue
         if ch not in _STRUCT_W or ch in "c?":
             return None
         for _ in range(int(n) if n else 1):
@@ -187,7 +193,10 @@ def field_read(value: Term, i) -> Optional[Term]:
     """Canonical form of element i of struct.unpack(fmt, X) / struct.unpack_from(fmt, X, off): a one-byte field is X[k], a wider
     one int.from_bytes(X[a:b], order) - the same term an int.from_bytes spelling of the read produces."""
     if isinstance(value, tuple) and value and value[0] == "call" and value[1] == ("ext", "divmod") and len(value[2]) == 2 and i in (0, 1) and not value[3]:
-        return ("bin", "//" if i == 0 else "%", value[2][0], value[2][1])
+        a_, b_ = value[2]
+        if is_const(b_) and isinstance(b_[1], int) and not isinstance(b_[1], bool) and b_[1] > 1 and (b_[1] & (b_[1] - 1)) == 0 and _integer_valued_loose(a_):
+            return ("bin", ">>", a_, const(b_[1].bit_length() - 1)) if i == 0 else ("bin", "&", a_, const(b_[1] - 1))
+        return ("bin", "//" if i == 0 else "%", a_, b_)
     if not (isinstance(value, tuple) and value and value[0] == "call" and value[1][0] == "ext"
             and value[1][1] in ("struct.unpack", "struct.unpack_from") and len(value[2]) >= 2 and isinstance(i, int)):
         return None
@@ -211,6 +220,8 @@ def field_read(value: Term, i) -> Optional[Term]:
         if is_const(t) and isinstance(t[1], int):
             return const(t[1] + k)
         return t if k == 0 else ("bin", "+", t, const(k))
+    if code == "s":
+        return ("slice", buf, plus(base, off), plus(base, off + w), None)          # the bytes themselves
     if w == 1 and code == "B":
         return ("sub", buf, plus(base, off))
     if value[1][1] == "struct.unpack" and len(fields) == 1 and off == 0 and w == total:
@@ -514,6 +525,10 @@ class TermAnalysis(Analysis):
             elif is_const(value) and isinstance(value[1], (tuple, list)) and len(value[1]) == len(target.elts):
                 for t, v in zip(target.elts, value[1]):
                     self.assign(t, const(v), st)
+            elif (self._record(value) or {}).get("__tuple__") and len(self._record(value)["__order__"]) == len(target.elts):
+                rec = self._record(value)
+                for t, f in zip(target.elts, rec["__order__"]):
+                    self.assign(t, rec[f], st)
             else:
                 for i, t in enumerate(target.elts):
                     self.assign(t, field_read(value, i) or ("item", value, i), st)
@@ -661,6 +676,34 @@ class TermAnalysis(Analysis):
             return ("global", f"{r[1].name}.{r[2]}")
         return ("global", name)
 
+    def _record(self, t: Term):
+        """{field: term} when `t` constructs a record class (NamedTuple / plain dataclass) from known arguments"""
+        if not (isinstance(t, tuple) and t and t[0] == "call" and t[1][0] == "func" and t[1][1] in self.prog.classes):
+            return None
+        c = self.prog.classes[t[1][1]]
+        fields = self.prog.record_fields(c)
+        if fields is None or any(a[0] == "starred" for a in t[2]) or len(t[2]) > len(fields):
+            return None
+        out = {}
+        kw = dict(t[3]) if t[3] else {}
+        if "**" in kw:
+            return None
+        for i, (f, default) in enumerate(fields):
+            if i < len(t[2]):
+                out[f] = t[2][i]
+            elif f in kw:
+                out[f] = kw[f]
+            elif default is not None:
+                try:
+                    out[f] = lit(self.prog.fold(default, c.module, c))
+                except Exception:
+                    return None
+            else:
+                return None
+        out["__order__"] = [f for f, _d in fields]
+        out["__tuple__"] = self.prog.is_namedtuple(c)
+        return out
+
     def _attr(self, base: Term, name: str) -> Term:
         if is_const(base) and isinstance(base[1], tuple) and len(base[1]) == 2 and base[1][0] == "struct.Struct" and name in ("size", "format"):
             import struct as _st
@@ -670,6 +713,9 @@ class TermAnalysis(Analysis):
                 pass
         if is_const(base) and isinstance(base[1], slice) and name in ("start", "stop", "step"):
             return const(getattr(base[1], name))
+        rec = self._record(base)
+        if rec is not None and name in rec:
+            return rec[name]
         # class / module attribute constants fold
         if base[0] == "global":
             q = base[1]
@@ -756,6 +802,9 @@ class TermAnalysis(Analysis):
                         None if sl.step is None else const(sl.step))
             if base[0] in ("tuple", "list") and is_const(idx) and isinstance(idx[1], int) and -len(base[1]) <= idx[1] < len(base[1]):
                 return base[1][idx[1]]
+            rec = self._record(base) if is_const(idx) and isinstance(idx[1], int) else None
+            if rec and rec["__tuple__"] and -len(rec["__order__"]) <= idx[1] < len(rec["__order__"]):
+                return rec[rec["__order__"][idx[1]]]
             if base[0] == "dict" and 0 < len(base[1]) <= 12 and all(k[0] in ("const", "enum") for k, _v in base[1]) and not (idx[0] in ("const", "enum")):
                 # TABLE[x] for a literal table: v1 if x == k1 else v2 if x == k2 ... (a missing key raises KeyError)
                 out = ("top", "KeyError: key not in the table")
@@ -777,6 +826,11 @@ class TermAnalysis(Analysis):
                 fr = field_read(base, idx[1])
                 if fr is not None:
                     return fr
+            if (base[0] == "slice" and base[4] is None and is_const(idx) and isinstance(idx[1], int) and not isinstance(idx[1], bool) and idx[1] >= 0
+                    and (base[2] is None or (is_const(base[2]) and isinstance(base[2][1], int) and base[2][1] >= 0))
+                    and not (base[3] is not None and is_const(base[3]) and isinstance(base[3][1], int) and 0 <= base[3][1] <= (base[2][1] if base[2] else 0) + idx[1])):
+                # x[a:b][k] is x[a + k] (where it exists at all)
+                return ("sub", base[1], const((base[2][1] if base[2] else 0) + idx[1]))
             return ("sub", base, idx)
         if isinstance(e, ast.BinOp):
             a, b = self.ev(e.left, st), self.ev(e.right, st)
@@ -866,6 +920,28 @@ class TermAnalysis(Analysis):
             for p in params:
                 sub.env[p] = ("bound", p)
             return ("lambda", tuple(params), self.ev(e.body, sub), id(e))
+        if isinstance(e, (ast.ListComp, ast.GeneratorExp)) and len(e.generators) == 1 and not e.generators[0].is_async:
+            # a comprehension over a literal sequence is the sequence of its instances
+            g = e.generators[0]
+            it = self.ev(g.iter, st)
+            items = None
+            if it[0] in ("tuple", "list") and not any(x[0] == "starred" for x in it[1]):
+                items = list(it[1])
+            elif is_const(it) and isinstance(it[1], (tuple, list)):
+                items = [const(x) for x in it[1]]
+            if items is not None and len(items) <= 16:
+                out = []
+                for item in items:
+                    sub = st.copy()
+                    self.assign(g.target, item, sub)
+                    conds = [self.ev(c, sub) for c in g.ifs]
+                    if any(not is_const(c) for c in conds):
+                        out = None
+                        break
+                    if all(c[1] for c in conds):
+                        out.append(self.ev(e.elt, sub))
+                if out is not None:
+                    return ("list" if isinstance(e, ast.ListComp) else "tuple", tuple(out))
         if isinstance(e, (ast.ListComp, ast.SetComp, ast.GeneratorExp, ast.DictComp)):
             sub = st.copy()
             gens = []
